@@ -893,10 +893,17 @@ where
             // dereferencing the cell pointer should be safe as well.
             unsafe {
                 let cell = self.item_at_offset(offset as u64);
-                let cell_ref = CellRef::from_raw(cell);
-                let size = cell_ref.total_size();
+                let size = CellRef::from_raw(cell).total_size();
                 destination_offset -= size as usize;
-                self.write_item_to_offset(destination_offset as u64, cell_ref);
+                // Cells are visited from the highest offset down, so a cell only moves towards
+                // the end of the page and its new position may overlap the old one (or be the
+                // same): the bytes have to be moved as one block, memmove style.
+                let destination = self.item_at_offset(destination_offset as u64);
+                std::ptr::copy(
+                    cell.cast::<u8>().as_ptr(),
+                    destination.cast::<u8>().as_ptr(),
+                    size,
+                );
             }
             self.slot_array_mut()[i] = destination_offset as u16;
         }
